@@ -83,6 +83,9 @@ def region_alphabet():
     add("extarr_of_alias_extarr", [("Row", ("alias", ("arr", ("uint", 8), 3, True)))], ("arr", ("ref", "Row"), 2, True))
     add("extarr_of_alias_arr", [("Row", ("alias", ("arr", ("uint", 5), 2, False)))], ("arr", ("ref", "Row"), 2, True))
     add("arr_of_alias_extarr", [("Row", ("alias", ("arr", ("bool",), 3, True)))], ("arr", ("ref", "Row"), 2, False))
+    # announced values that need the high byte of the 16-bit prefix
+    add("extarr_bool_256", [], ("arr", ("bool",), 256, True))
+    add("extmsg_big", [("Em", ("msg", True, [(("arr", ("uint", 64), 4, False), "w", 1), (("uint", 7), "x", 2)]))], ("ref", "Em"))
     add("extmsg_in_extmsg", [("In", ("msg", True, [(("uint", 4), "i", 1)])),
                              ("Em", ("msg", True, [(("ref", "In"), "inner", 1), (("uint", 3), "t", 2)]))], ("ref", "Em"))
     return out
@@ -257,15 +260,48 @@ def _run_chunk(tier, rname, states, idxs, sc, out, tag):
         for j in idxs:
             sj = states[j]
             out.count("states")
-            if not sj["ancestors"]:
-                continue
             layj = ref.layout(sj["pkt"])
             leavesj = [l for l in layj if l.is_value]
             pathsj = {l.path: n for n, l in enumerate(leavesj)}
             vecs = values.basis(leavesj)
             wires = [ref.encode(sj["pkt"], v, layj) for v in vecs]
+            # the newest version is encoded by the IMPLEMENTATION encoders as well: they must announce what the reference announces
+            if pymod is not None:
+                clsj = getattr(pymod.module, sj["pkt"].name)
+                from ..pyback import set_vec
+                for v, w in zip(vecs[:3] + vecs[-2:], wires[:3] + wires[-2:]):
+                    try:
+                        o = clsj()
+                        set_vec(o, leavesj, v)
+                        got = bytes(o.encode())
+                    except Exception as e:
+                        got = None
+                    out.count("evaluations")
+                    if got != w:
+                        out.violation(check="py-encode", symptom="announced_sizes_or_bytes_differ", site="lib/py/bitprotolib/bp.py:encode", features=["event:encode"],
+                                      sig_features=["py-encode"], desc="newest version %s: python encoder gives %s, reference %s" % (
+                                          " / ".join(str(e) for e in sj["hist"]) or "root", got.hex() if got else None, w.hex()),
+                                      schema={"new.bitproto": _text(sj["defs"])}, replay=dict(kind="c05", old=pack(sj["defs"]), new=pack(sj["defs"])))
+                        break
+            if h is not None:
+                rj = row_of[j]
+                try:
+                    encj = h.encode_many(rj, [h.image(rj, leavesj, v) for v in vecs[:3] + vecs[-2:]])
+                    for (flag, got), w in zip(encj, wires[:3] + wires[-2:]):
+                        out.count("evaluations")
+                        if got != w:
+                            out.violation(check="c-encode", symptom="announced_sizes_or_bytes_differ", site="lib/c/bitproto.c:encode", features=["event:encode"],
+                                          sig_features=["c-encode"], desc="newest version %s: C encoder gives %s, reference %s" % (
+                                              " / ".join(str(e) for e in sj["hist"]) or "root", got.hex(), w.hex()), schema={"new.bitproto": _text(sj["defs"])},
+                                          replay=dict(kind="c05", old=pack(sj["defs"]), new=pack(sj["defs"])))
+                            break
+                except cback.HarnessFault as e:
+                    h.close()
+                    h = cb.harness("std-O2")
             for i in sorted(set(sj["ancestors"])):
                 si = states[i]
+                if i == j:
+                    continue
                 layi = ref.layout(si["pkt"])
                 leavesi = [l for l in layi if l.is_value]
                 try:
